@@ -1,4 +1,4 @@
-import BppProofs.Lemmas.NumDerivDeleg
+import BppProofs.Lemmas.NumDerivExact5
 /-!
 # C12 — numerical derivatives are transparent and exact on low-degree polynomials
 
@@ -491,5 +491,56 @@ theorem delegation_end_to_end (f : List ℝ → ℝ) (D : Deriv ℝ) (w : W ℝ)
     rw [hfi, hlen, hn, ← hfi, ← hlen]; exact hpos
   rw [delegation_value D _ n k hen hpos', b hen, t1]
   rfl
+
+
+/-! ## 7. What the five-point wrapper stores, end to end (nominal path) -/
+
+theorem five_point_computes_central (f : List ℝ → ℝ) (w : W ℝ) (params : PList ℝ) (hown : Own w.fn) (hok : w.fn.OK f)
+    (hF : Free f params w.fn.params) (hpnd : (names params).Nodup) (hc1 : w.c1 = true)
+    (hvars : w.vars.Nodup) (hin : ∀ v ∈ w.vars, has params v = true → v ∈ names w.fn.params)
+    (hl1 : w.der1.length = w.vars.length) (hl2 : w.der2.length = w.vars.length) :
+    (update5 f w params).2 = none ∧
+    ∀ k (hk : k < w.vars.length), has params w.vars[k] = true →
+      (update5 f w params).1.der1[k]? = some (five1 f w.fn.params w.h w.vars[k]) ∧
+      (update5 f w params).1.der2[k]? = some (five2 f w.fn.params w.h (f (values w.fn.params)) w.vars[k]) :=
+  update5_free f w params hown hok hF hpnd hc1 hvars hin hl1 hl2
+
+/-- the stored five-point derivatives are the analytical ones when `f`, as a function of the
+selected variable alone, is a polynomial of degree ≤ 5: the second derivative always, the first
+one when the degree is ≤ 4 -/
+theorem five_point_stored_exact (f : List ℝ → ℝ) (w : W ℝ) (params : PList ℝ) (hown : Own w.fn) (hok : w.fn.OK f)
+    (hF : Free f params w.fn.params) (hpnd : (names params).Nodup) (hc1 : w.c1 = true)
+    (hvars : w.vars.Nodup) (hin : ∀ v ∈ w.vars, has params v = true → v ∈ names w.fn.params) (hh : w.h ≠ 0)
+    (hl1 : w.der1.length = w.vars.length) (hl2 : w.der2.length = w.vars.length)
+    (k : Nat) (hk : k < w.vars.length) (hhk : has params w.vars[k] = true)
+    (b : Param ℝ) (hb : find? w.fn.params w.vars[k] = some b) (c : Fin 6 → ℝ)
+    (hpoly : ∀ t, f (values (upd1 w.fn.params w.vars[k] t)) = poly5 c t) :
+    (update5 f w params).1.der2[k]? = some (some (poly5'' c b.value)) ∧
+    (c 5 = 0 → (update5 f w params).1.der1[k]? = some (some (poly5' c b.value))) := by
+  obtain ⟨_, h⟩ := update5_free f w params hown hok hF hpnd hc1 hvars hin hl1 hl2
+  obtain ⟨h1, h2⟩ := h k hk hhk
+  have hne : (Scalar.one + Scalar.abs b.value) * w.h ≠ 0 := by
+    simp only [ScalarReal.one_eq, ScalarReal.abs_eq]
+    exact mul_ne_zero (by positivity) hh
+  have hbase : f (values w.fn.params) = poly5 c b.value := by
+    rw [← hpoly b.value]
+    congr 2
+    symm
+    apply upd1_same
+    intro p hp hn
+    have := find?_of_mem hown.1 hp
+    rw [hn, hb] at this; injection this with this; rw [this]
+  constructor
+  · rw [h2]
+    simp only [five2, hb, hpoly, hbase, ScalarReal.ofInt_eq]
+    have := five_point_d2_exact_deg5 c b.value ((Scalar.one + Scalar.abs b.value) * w.h) hne
+    push_cast at this ⊢
+    rw [this]
+  · intro h5
+    rw [h1]
+    simp only [five1, hb, hpoly, ScalarReal.ofInt_eq]
+    have := five_point_d1_exact_deg4 c h5 b.value ((Scalar.one + Scalar.abs b.value) * w.h) hne
+    push_cast at this ⊢
+    rw [this]
 
 end Bpp.C12
